@@ -95,6 +95,9 @@ fn main() {
             c.truncate(40);
             if code == "fr" {
                 c.insert(0, "du cent neuf".to_string());
+                // a determiner at the end of the first part is four words before a "neuf" that opens the second part (separator of three words)
+                c.insert(0, "il a vendu le".to_string());
+                c.insert(0, "neuf clients attendaient dehors".to_string());
                 c.insert(0, "le vingt neuf".to_string());
             }
             for a in &c {
